@@ -207,9 +207,9 @@ def main():
     ninc = 0
     inc_cases = []
     for e in entries:
-        inds = INDICATORS_OF.get(e["name"])
-        if not inds or not e["params"]:
-            continue
+        inds = INDICATORS_OF.get(e["name"].split("/fields")[0] if e["name"].endswith("/fields") else e["name"])
+        if not inds or not e["params"] or any(i_ not in byname for i_, _ in inds):
+            continue        # (an indicator filtered out by VERIF_ONLY during development)
         k = len(e["params"])
         cand = [list(p_) for p_ in itertools.permutations([2, 3, 5, 7, 4, 6][:max(k, 2)], k)]
         oks = pe.valid_many([(e["name"], c_) for c_ in cand])
